@@ -33,8 +33,9 @@ def reader(P):
     return P.need_fn('iauth_read')
 
 
-def find_vec(fn):
-    """(argc, argv) of the reader: the local pointer array filled by the tokenizer and its counter."""
+def find_vec(fn, P=None):
+    """(argc, argv, extent) of the reader: the local pointer array filled by the tokenizer and its
+    counter.  The tokenizer may live in the reader or in a helper that is handed the array."""
     argv = argc = None
     for s in fn.sites():
         ev = s.ev
@@ -48,8 +49,20 @@ def find_vec(fn):
             vs = [v for v in vars_in(lhs['index'])]
             if vs:
                 argc = vs[0]
+    # the counter the dispatch relies on is the one handed on together with the vector
+    for s in fn.calls():
+        if any(is_var(a, argv) for a in s.ev['args']):
+            for a in s.ev['args']:
+                if is_var(a) and a['name'] != argv and a.get('t', '') in ('size_t', 'int', 'unsigned int', 'unsigned long'):
+                    argc = a['name']
     if argc is None:
-        raise AnalysisBroken('reader never stores into its argument vector')
+        # filled by a helper: the counter is what the helper returns
+        for s in fn.stores():
+            rhs = s.ev.get('rhs') or {}
+            if s.ev['k'] == 'store' and is_var(s.ev.get('lhs')) and rhs.get('k') == 'callref' and any(is_var(a, argv) for a in rhs.get('args', [])):
+                argc = s.ev['lhs']['name']
+    if argc is None:
+        raise AnalysisBroken('reader never fills its argument vector')
     return argc, argv, [s.ev['array'] for s in fn.sites() if s.ev['k'] == 'decl' and s.ev.get('var') == argv][0]
 
 
@@ -66,14 +79,31 @@ def tokenizer(P, R):
     fn = reader(P)
     argc, argv, extent = find_vec(fn)
     cache = {}
+    n = 0
     for s in fn.stores():
         lhs = s.ev.get('lhs')
         if not (lhs and lhs.get('k') == 'idx' and is_var(lhs['base'], argv)):
             continue
+        n += 1
         m = rules.max_index_at_store(fn, s, lhs['index'], cache)
         ok = m is not None and m <= extent
         R.ob('C08.BND.1', ok, s, 'store %s: index bounded by %s, extent %d' % (sx(lhs), m if m is not None else 'nothing', extent),
              key='store:%s' % sx(lhs))
+    # a tokenizer extracted into a helper: its stores through the vector parameter
+    for s in fn.calls():
+        for j, a in enumerate(s.ev['args']):
+            if is_var(a, argv):
+                for t in P.callees(s, False):
+                    if j >= len(t.params):
+                        continue
+                    pv = t.params[j]
+                    c2 = {}
+                    for u in t.stores():
+                        lhs = u.ev.get('lhs')
+                        if u.ev['k'] == 'store' and lhs and lhs.get('k') == 'idx' and is_var(lhs['base'], pv):
+                            n += 1
+                            idi, why = bnd.classify_store(P, t, u, c2)
+                            R.ob('C08.BND.1', bool(idi) and idi != 'skip', u, 'store %s in the tokenizer helper: %s' % (sx(lhs), ('idiom ' + idi + ' [' + why + ']') if idi else why), key='store:%s' % sx(lhs))
     R.floor('C08.BND.1', 3, 'tokenizer stores into argv')
 
 
@@ -165,6 +195,11 @@ def line_lifetime(P, R):
             ev = s.ev
             if ev['k'] == 'call':
                 if any(vars_in(a) & alias for a in ev['args'] if not (a.get('k') == 'un' and a['op'] == '&')):
+                    for a in ev['args']:
+                        # a pointer array handed to the same call may receive pointers into the line
+                        if is_var(a) and a.get('arr') is not None and a.get('t', '').startswith('char *[') and a['name'] not in alias and P.callees(s, False):
+                            alias.add(a['name'])
+                            changed = True
                     for a in ev['args']:
                         if a.get('k') == 'un' and a['op'] == '&' and is_var(a['e']) and a['e']['name'] not in alias \
                                 and a['e'].get('t', '').endswith('*'):
